@@ -1,4 +1,4 @@
-import ApolloModel.Proofs.ParserTree16
+import ApolloModel.Proofs.ParserTree24
 import ApolloModel.Proofs.AstDocument3
 import ApolloModel.Proofs.AstText7
 import ApolloModel.Proofs.AstText8
@@ -408,10 +408,118 @@ theorem directives_pipeline (n : Nat) (c : Bool) (s s' : PState) (st : Parse.St 
 /-- **Stage (iii), selections — the conversion half.**  `impl Convert for cst::Selection` on a tree of the shape
     `SelTree sel` (FIELD[ALIAS? NAME ARGUMENTS? DIRECTIVES? SELECTION_SET?], FRAGMENT_SPREAD[... FRAGMENT_NAME DIRECTIVES?],
     INLINE_FRAGMENT[... TYPE_CONDITION? DIRECTIVES? SELECTION_SET], any nesting, junk tokens anywhere between children)
-    returns `sel`.  (That selection.rs builds these shapes is the part of stage (iii) still to do.) -/
+    returns `sel`.  (That selection.rs builds these shapes: `selection_set_pipeline`, `fieldset_cst_of_accepted` below.) -/
 theorem selection_conversion (n : Nat) (sel : Sel) (e : Elem) (h : FromCst.SelTree sel e) (hs : FromCst.size e ≤ n) :
     ∀ (R : List FromCst.Loc) (o : Nat) (hp : ∀ y ∈ nameRanges e o, y ∈ R), ∃ l, FromCst.cSelection n ⟨(e, o), hp⟩ = some (sel, l) :=
   FromCst.cSelection_selTree n sel e h hs
+
+/-- **Stage (iii), selections — the parser half.**  An error-free run of `selection.rs::selection_set` entered on `{`
+    (any fuel, from any state of the calculus) consumed the tokens `{ tSels sels }` of a non-empty list of selections —
+    well-formed: values without unknown shapes, spreads not named `on`, inline fragments with a selection set — and
+    appended ONE element besides junk, of the shape `SelSetNode sels`: `SELECTION_SET[{ Selection+ }]` whose child nodes
+    are FIELD / FRAGMENT_SPREAD / INLINE_FRAGMENT trees `SelTree` (alias look-ahead, arguments, directives, nested
+    selection sets, type conditions; by the four-way induction field / inline fragment / selection / selection set);
+    `convert_selection_set` on it (fuel ≥ its size) returns `sels`, and so does the reference parser on the tokens. -/
+theorem selection_set_pipeline (n : Nat) (s s' : PState) (st : Parse.St s) (hq : Parse.HeadK .lCurly (Parse.Toks s))
+    (h : (Parse.selectionSet n).run s = .ok () s') (hnd : ¬ Parse.Doomed s') :
+    ∃ cs added sels es, Parse.Toks s = cs ++ Parse.Toks s' ∧ s'.builder.children = s.builder.children ++ added ∧
+      sels ≠ .nil ∧ wfSels sels = true ∧
+      (Parse.sig cs).map Parse.astOfV = (Ast.Tok.p .lCurly :: tSels sels ++ [Ast.Tok.p .rCurly]).map some ∧
+      Parse.sigE added = [es] ∧ FromCst.SelSetNode sels es ∧
+      (∀ (m : Nat), FromCst.size es ≤ m + 1 → ∀ (R : List FromCst.Loc) (o : Nat) (hp : ∀ y ∈ nameRanges es o, y ∈ R),
+        ∃ l, FromCst.collectM (FromCst.cSelection m) (FromCst.childrenP FromCst.isSelectionKind ⟨(es, o), hp⟩) =
+          some (FromCst.selsToList sels, l)) ∧
+      pSelectionSet (szSels sels) (Ast.Tok.p .lCurly :: tSels sels ++ [Ast.Tok.p .rCurly]) = some (sels, []) := by
+  obtain ⟨_, cs, added, h1, _, _, h4, h5⟩ := Parse.St.step (Parse.tr_selSet n) st hq h hnd
+  rcases h5 with ⟨sels, es, hne, hwf, h6, h7, h8⟩ | f
+  · refine ⟨cs, added, sels, es, h1, h4, hne, hwf, h6, h7, h8, ?_, ?_⟩
+    · intro m hm R o hp
+      exact FromCst.selSet_collect m sels es h8 (fun es' a b => FromCst.cSels_selsTree m sels es' a b) hm R o hp
+    · simpa [pSelectionSet] using selsNE_roundtrip sels _ [] hne hwf (Nat.le_refl _)
+  · exact absurd f id
+
+/-- **The tree of an accepted field set** (`Parser::parse_selection_set`, no token limit, any recursion limit): no error
+    ⇒ the source lexes cleanly, its significant tokens are `{ Selection+ }` or, brace-less, `Selection+`, then the end
+    of input, and the tree handed out by `finish_standalone` is ONE `SELECTION_SET` node (`FieldSetNode sels root`:
+    the braced node itself, or the brace-less node opened by `field_set`) — never the temporary root. -/
+theorem fieldset_cst_of_accepted (rl : Nat) (src : Parse.Str) (root : Elem)
+    (h : (parse .selectionSet none rl src).outcome = .tree root) (herr : (parse .selectionSet none rl src).errors = []) :
+    Parse.LexClean src ∧ ∃ (sels : Sels) (ts : List Parse.Tok) (e : Parse.Tok),
+      Parse.sig (Parse.srcToks src) = ts ++ [e] ∧ e.kind = .eof ∧ sels ≠ .nil ∧ wfSels sels = true ∧
+      (ts.map Parse.astOfV = (Ast.Tok.p .lCurly :: tSels sels ++ [Ast.Tok.p .rCurly]).map some ∨ ts.map Parse.astOfV = (tSels sels).map some) ∧
+      FromCst.FieldSetNode sels root :=
+  Parse.parseFieldSet_cst rl src root h herr
+
+/-- **Stage (iii), entry point: the pipeline agrees with the reference parser on field sets.**  For an accepted source,
+    `convert_selection_set` on the tree of `Parser::parse_selection_set` (what `FieldSet::from_cst`/`ast::Document`
+    do with it; any byte offset, any location set, fuel = size of the tree) and the reference parser `pSelectionSet` on
+    the significant tokens (with the braces added when the source has none) return the same selections. -/
+theorem fieldset_pipeline_agrees (rl : Nat) (src : Parse.Str) (root : Elem)
+    (h : (parse .selectionSet none rl src).outcome = .tree root) (herr : (parse .selectionSet none rl src).errors = []) :
+    ∃ (sels : Sels) (ts : List Parse.Tok) (e : Parse.Tok) (x : List Ast.Tok),
+      Parse.sig (Parse.srcToks src) = ts ++ [e] ∧ e.kind = .eof ∧ ts.map Parse.astOfV = x.map some ∧ sels ≠ .nil ∧
+      (x = Ast.Tok.p .lCurly :: tSels sels ++ [Ast.Tok.p .rCurly] ∨ x = tSels sels) ∧
+      (∀ (R : List FromCst.Loc) (s : Nat) (hp : ∀ y ∈ nameRanges root s, y ∈ R),
+        ∃ l, FromCst.collectM (FromCst.cSelection (FromCst.size root))
+          (FromCst.childrenP FromCst.isSelectionKind (⟨(root, s), hp⟩ : FromCst.PE R)) = some (FromCst.selsToList sels, l)) ∧
+      pSelectionSet (szSels sels) (Ast.Tok.p .lCurly :: tSels sels ++ [Ast.Tok.p .rCurly]) = some (sels, []) := by
+  obtain ⟨sels, ts, e, x, h1, h2, h3, h4, h5, _, h7, h8⟩ := Parse.parseFieldSet_fromCst_agrees rl src root h herr
+  exact ⟨sels, ts, e, x, h1, h2, h3, h4, h5, h7, h8⟩
+
+/-- **pipeline_print_parse_fieldset.**  Whenever the significant tokens of a cleanly lexing source spell a non-empty
+    well-formed list of selections `ss` — in braces (no ignored token in front) or brace-less — within the recursion
+    limit (C07 `fieldset_accept_complete`), `Parser::parse_selection_set` accepts, hands out one SELECTION_SET node, and
+    `convert_selection_set` on it returns `ss` itself (`FromCst.listToSels (selsToList ss) = ss`). -/
+theorem pipeline_print_parse_fieldset (rl : Nat) (src : Parse.Str) (ss : Sels) (ts : List Parse.Tok) (e : Parse.Tok)
+    (hclean : Parse.LexClean src) (hsig : Parse.sig (Parse.srcToks src) = ts ++ [e]) (he : e.kind = .eof)
+    (hne : ss ≠ .nil) (hwf : wfSels ss = true) (hb : 1 ≤ rl) (hfit : Parse.fitSels ss (rl - 1))
+    (hx : (ts.map Parse.astOfV = (Ast.Tok.p .lCurly :: tSels ss ++ [Ast.Tok.p .rCurly]).map some ∧
+            (∀ hd tl, Parse.srcToks src = hd :: tl → isIgnoredKind hd.kind = false)) ∨
+          ts.map Parse.astOfV = (tSels ss).map some) :
+    (parse .selectionSet none rl src).errors = [] ∧
+    ∃ root, (parse .selectionSet none rl src).outcome = .tree root ∧ FromCst.FieldSetNode ss root ∧
+      (∀ (R : List FromCst.Loc) (s : Nat) (hp : ∀ y ∈ nameRanges root s, y ∈ R),
+        ∃ l, FromCst.collectM (FromCst.cSelection (FromCst.size root))
+          (FromCst.childrenP FromCst.isSelectionKind (⟨(root, s), hp⟩ : FromCst.PE R)) = some (FromCst.selsToList ss, l)) ∧
+      FromCst.listToSels (FromCst.selsToList ss) = ss := by
+  obtain ⟨h1, root, h2, h3, h4⟩ := Parse.pipeline_print_parse_fieldset rl src ss ts e hclean hsig he hne hwf hb hfit hx
+  exact ⟨h1, root, h2, h3, h4, FromCst.listToSels_toList ss⟩
+
+/-- **Stage (iv), variable definitions.**  An error-free run of `variable.rs::variable_definitions` entered on `(`
+    consumed the tokens `tVarDefs vs` (`vs ≠ []`, default values constant and well-formed, directives well-formed) and
+    appended ONE element besides junk, the node `VARIABLE_DEFINITIONS[( VARIABLE_DEFINITION[VARIABLE[$ NAME] : Type
+    DEFAULT_VALUE[= value]? DIRECTIVES?]+ )]`; `collect_opt(x.variable_definitions(), …)` of from_cst.rs on it returns `vs`. -/
+theorem variable_definitions_pipeline (n : Nat) (s s' : PState) (st : Parse.St s) (hq : Parse.HeadK .lParen (Parse.Toks s))
+    (h : (Parse.variableDefinitions n).run s = .ok () s') (hnd : ¬ Parse.Doomed s') :
+    ∃ cs added vs ev, Parse.Toks s = cs ++ Parse.Toks s' ∧ s'.builder.children = s.builder.children ++ added ∧ vs ≠ [] ∧
+      (Parse.sig cs).map Parse.astOfV = (tVarDefs vs).map some ∧ wfVarDefs vs = true ∧ Parse.sigE added = [ev] ∧
+      Parse.VarDefsNode vs ev ∧
+      ∀ (m : Nat), FromCst.size ev ≤ m + 1 → ∀ (R : List FromCst.Loc) (o : Nat) (hp : ∀ y ∈ nameRanges ev o, y ∈ R),
+        ∃ l, FromCst.collectM (FromCst.cVariableDefinition m) (FromCst.children "VARIABLE_DEFINITION" ⟨(ev, o), hp⟩) = some (vs, l) := by
+  obtain ⟨_, cs, added, h1, _, _, h4, h5⟩ := Parse.St.step (Parse.tr_variableDefinitions n) st hq h hnd
+  rcases h5 with ⟨vs, ev, hne, h6, h7, h8, h9⟩ | f
+  · exact ⟨cs, added, vs, ev, h1, h4, hne, h6, h7, h8, h9, fun m hm R o hp => FromCst.varDefs_collect m vs ev h9 hm R o hp⟩
+  · exact absurd f id
+
+/-- **Stage (iv), fragment definitions.**  An error-free run of `fragment.rs::fragment_definition` entered on the
+    `fragment` keyword consumed the tokens `tDefinition (.fragment name tc dirs sels)` of a WELL-FORMED fragment
+    definition (`wfDefinition`: name not `on`, directives and selections well-formed, selection set non-empty) and
+    appended ONE element besides junk, `FRAGMENT_DEFINITION[fragment FRAGMENT_NAME TYPE_CONDITION DIRECTIVES?
+    SELECTION_SET]`; `impl Convert for cst::Definition` on it (fuel + 1 ≥ its size) returns that definition. -/
+theorem fragment_definition_pipeline (n : Nat) (s s' : PState) (st : Parse.St s)
+    (hq : Parse.HeadP (fun t : Parse.Tok => t.kind = .name ∧ t.data = "fragment".toList) (Parse.Toks s))
+    (h : (Parse.fragmentDefinition n).run s = .ok () s') (hnd : ¬ Parse.Doomed s') :
+    ∃ cs added name tc dirs sels ed, Parse.Toks s = cs ++ Parse.Toks s' ∧ s'.builder.children = s.builder.children ++ added ∧
+      (Parse.sig cs).map Parse.astOfV = (tDefinition false (.fragment name tc dirs sels)).map some ∧
+      wfDefinition (.fragment name tc dirs sels) = true ∧ Parse.sigE added = [ed] ∧
+      FromCst.FragDefTree name tc dirs sels ed ∧
+      ∀ (m : Nat), FromCst.size ed ≤ m + 1 → ∀ (R : List FromCst.Loc) (o : Nat) (hp : ∀ y ∈ nameRanges ed o, y ∈ R),
+        ∃ l, FromCst.cDefinition m ⟨(ed, o), hp⟩ = some (.fragment name tc dirs sels, l) := by
+  obtain ⟨_, cs, added, h1, _, _, h4, h5⟩ := Parse.St.step (Parse.tr_fragmentDefinition n) st hq h hnd
+  rcases h5 with ⟨name, tc, dirs, sels, ed, h6, h7, h8, h9⟩ | f
+  · exact ⟨cs, added, name, tc, dirs, sels, ed, h1, h4, h6, h7, h8, h9,
+      fun m hm R o hp => FromCst.cDefinition_fragment m name tc dirs sels ed h9 hm R o hp⟩
+  · exact absurd f id
 
 end Pipeline
 
